@@ -1,4 +1,724 @@
-(* C04 — lemmas (work in progress) *)
+(* C04 — lemmas about the removal model *)
 From Coq Require Import List ZArith Bool Lia.
 Import ListNotations.
 From GU Require Import C04.Model.
+
+(* ---------- equality tests ---------- *)
+
+Lemma name_eqb_eq : forall a b, name_eqb a b = true <-> a = b.
+Proof.
+  induction a as [|x xs IH]; destruct b as [|y ys]; simpl; split; intro H; try reflexivity; try discriminate.
+  - apply andb_true_iff in H as [H1 H2]. apply Z.eqb_eq in H1. apply IH in H2. now subst.
+  - inversion H; subst. rewrite Z.eqb_refl. simpl. now apply IH.
+Qed.
+
+Lemma path_eqb_eq : forall a b, path_eqb a b = true <-> a = b.
+Proof.
+  induction a as [|x xs IH]; destruct b as [|y ys]; simpl; split; intro H; try reflexivity; try discriminate.
+  - apply andb_true_iff in H as [H1 H2]. apply name_eqb_eq in H1. apply IH in H2. now subst.
+  - inversion H; subst. apply andb_true_iff. split; [now apply name_eqb_eq | now apply IH].
+Qed.
+
+Lemma path_eqb_refl : forall a, path_eqb a a = true.
+Proof. intro a. now apply path_eqb_eq. Qed.
+
+Lemma path_eqb_neq : forall a b, a <> b -> path_eqb a b = false.
+Proof. intros a b H. destruct (path_eqb a b) eqn:E; [apply path_eqb_eq in E; contradiction | reflexivity]. Qed.
+
+Lemma path_eq_dec : forall a b : path, {a = b} + {a <> b}.
+Proof.
+  intros a b. destruct (path_eqb a b) eqn:E; [left; now apply path_eqb_eq | right; intro H; apply path_eqb_eq in H; congruence].
+Qed.
+
+(* ---------- the finite map ---------- *)
+
+Lemma lookup_rm_key : forall q s x, lookup (rm_key q s) x = if path_eqb x q then None else lookup s x.
+Proof.
+  intros q s x. induction s as [|[k e] r IH]; simpl.
+  - now destruct (path_eqb x q).
+  - destruct (path_eqb k q) eqn:Ekq; simpl.
+    + apply path_eqb_eq in Ekq. subst k. destruct (path_eqb q x) eqn:Eqx.
+      * apply path_eqb_eq in Eqx. subst x. now rewrite IH, path_eqb_refl.
+      * exact IH.
+    + destruct (path_eqb k x) eqn:Ekx; [|exact IH].
+      apply path_eqb_eq in Ekx. subst x. now rewrite Ekq.
+Qed.
+
+Lemma lookup_rm_key_other : forall q s x, x <> q -> lookup (rm_key q s) x = lookup s x.
+Proof. intros. rewrite lookup_rm_key, path_eqb_neq; auto. Qed.
+
+Lemma lookup_rm_key_same : forall q s, lookup (rm_key q s) q = None.
+Proof. intros. now rewrite lookup_rm_key, path_eqb_refl. Qed.
+
+(* ---------- prefixes ---------- *)
+
+Lemma under_refl : forall p, under p p.
+Proof. intro p. exists []. now rewrite app_nil_r. Qed.
+
+Lemma under_app : forall p r q, under (p ++ r) q -> under p q.
+Proof. intros p r q [x ->]. exists (r ++ x). now rewrite app_assoc. Qed.
+
+Lemma strict_prefix_not_under : forall a b, b <> [] -> ~ under (a ++ b) a.
+Proof.
+  intros a b Hb [r H]. apply (f_equal (@length name)) in H. rewrite !app_length in H.
+  destruct b; [congruence | simpl in H; lia].
+Qed.
+
+Lemma app_inv_head_nil : forall (a b : path), a = a ++ b -> b = [].
+Proof. intros a b H. apply (app_inv_head a). now rewrite app_nil_r. Qed.
+
+(* ---------- resolution of physical paths ---------- *)
+
+(* below a chain of real directories the OS walk is the identity, up to what sits at the end *)
+Lemma walk_phys : forall follow s lf rest cur,
+  rest <> [] ->
+  (forall a b, rest = a ++ b -> a <> [] -> b <> [] -> lookup s (cur ++ a) = Some EDir) ->
+  walk follow s lf cur rest =
+    match lookup s (cur ++ rest) with
+    | None => None
+    | Some (ELink t) => if lf then follow (t ++ []) else Some (cur ++ rest)
+    | Some _ => Some (cur ++ rest)
+    end.
+Proof.
+  intros follow s lf rest. induction rest as [|c rest' IH]; intros cur Hne Hd; [congruence|].
+  destruct rest' as [|c' r].
+  - simpl. destruct (lookup s (cur ++ [c])) as [[cid| |t]|]; reflexivity.
+  - assert (Hc : lookup s (cur ++ [c]) = Some EDir).
+    { apply (Hd [c] (c' :: r)); [reflexivity | discriminate | discriminate]. }
+    change (walk follow s lf cur (c :: c' :: r)) with
+      (let q := cur ++ [c] in match lookup s q with
+        | None => None | Some EDir => walk follow s lf q (c' :: r)
+        | Some (EFile _) => match c' :: r with [] => Some q | _ => None end
+        | Some (ELink t) => match c' :: r, lf with [], false => Some q | _, _ => follow (t ++ c' :: r) end end).
+    cbv zeta. rewrite Hc. rewrite IH.
+    + now rewrite <- app_assoc.
+    + discriminate.
+    + intros a b Hab Ha Hb. rewrite <- app_assoc. simpl. apply (Hd (c :: a) b); [simpl; now rewrite Hab | discriminate | exact Hb].
+Qed.
+
+Lemma dirs_above_walk_hyp : forall s p, dirs_above s p ->
+  forall a b, p = a ++ b -> a <> [] -> b <> [] -> lookup s ([] ++ a) = Some EDir.
+Proof. intros s p H a b Hab _ Hb. simpl. eapply H; eauto. Qed.
+
+Lemma resolve_phys : forall s lf p f, dirs_above s p -> p <> [] ->
+  resolve (S f) s lf p =
+    match lookup s p with
+    | None => None
+    | Some (ELink t) => if lf then resolve f s lf (t ++ []) else Some p
+    | Some _ => Some p
+    end.
+Proof.
+  intros s lf p f Hd Hne. simpl. rewrite walk_phys; [reflexivity | exact Hne | now apply dirs_above_walk_hyp].
+Qed.
+
+Lemma lstat_phys : forall s p, dirs_above s p -> lstat s p = lookup s p.
+Proof.
+  intros s p Hd. unfold lstat, link_fuel. destruct p as [|c r]; [reflexivity|].
+  rewrite resolve_phys by (auto; discriminate).
+  destruct (lookup s (c :: r)) as [[cid| |t]|] eqn:E; now rewrite ?E.
+Qed.
+
+Lemma resolve_nofollow_phys : forall s p, dirs_above s p ->
+  resolve link_fuel s false p = match p with [] => Some [] | _ => match lookup s p with None => None | Some _ => Some p end end.
+Proof.
+  intros s p Hd. unfold link_fuel. destruct p as [|c r]; [reflexivity|].
+  rewrite resolve_phys by (auto; discriminate). now destruct (lookup s (c :: r)) as [[cid| |t]|].
+Qed.
+
+Lemma resolve_follow_phys : forall s p, dirs_above s p -> not_link (lookup s p) ->
+  resolve link_fuel s true p = match lookup s p with None => match p with [] => Some [] | _ => None end | Some _ => Some p end.
+Proof.
+  intros s p Hd Hn. unfold link_fuel. destruct p as [|c r].
+  - simpl. now destruct (lookup s []).
+  - rewrite resolve_phys by (auto; discriminate).
+    destruct (lookup s (c :: r)) as [[cid| |t]|] eqn:E; try reflexivity. exfalso. now apply (Hn t).
+Qed.
+
+Lemma stat_phys : forall s p, dirs_above s p -> not_link (lookup s p) -> stat s p = lookup s p.
+Proof.
+  intros s p Hd Hn. unfold stat. rewrite resolve_follow_phys by assumption.
+  destruct (lookup s p) eqn:E; [exact E|]. destruct p; [exact E | reflexivity].
+Qed.
+
+Lemma readdir_phys : forall s p, dirs_above s p -> lookup s p = Some EDir -> readdir s p = Some (children s p).
+Proof.
+  intros s p Hd Hl. unfold readdir. rewrite resolve_follow_phys; [now rewrite Hl, Hl | exact Hd | intros t; congruence].
+Qed.
+
+(* ---------- what a call may change ---------- *)
+
+(* s' differs from s at most on the paths satisfying P *)
+Definition changes_only (P : path -> Prop) (s s' : fsys) : Prop := forall q, ~ P q -> lookup s' q = lookup s q.
+
+Lemma changes_only_refl : forall P s, changes_only P s s.
+Proof. intros P s q _. reflexivity. Qed.
+
+Lemma changes_only_trans : forall P s1 s2 s3, changes_only P s1 s2 -> changes_only P s2 s3 -> changes_only P s1 s3.
+Proof. intros P s1 s2 s3 H1 H2 q Hq. rewrite H2, H1; auto. Qed.
+
+Lemma changes_only_weaken : forall (P Q : path -> Prop) s s', (forall q, P q -> Q q) -> changes_only P s s' -> changes_only Q s s'.
+Proof. intros P Q s s' HPQ H q Hq. apply H. intro HP. apply Hq. now apply HPQ. Qed.
+
+Lemma dirs_above_preserved : forall (P : path -> Prop) s s' p,
+  (forall q, P q -> under p q) -> changes_only P s s' -> dirs_above s p -> dirs_above s' p.
+Proof.
+  intros P s s' p HP Hc Hd a b Hab Hb. rewrite Hc; [eapply Hd; eauto|].
+  intro HPa. apply HP in HPa. subst p. now apply (strict_prefix_not_under a b).
+Qed.
+
+Lemma dirs_above_child : forall s p n, dirs_above s p -> lookup s p = Some EDir -> dirs_above s (p ++ [n]).
+Proof.
+  intros s p n Hd Hl a b Hab Hb.
+  destruct (exists_last Hb) as [b' [x ->]]. rewrite app_assoc in Hab. apply app_inj_tail in Hab as [Hp Hx].
+  destruct b' as [|y b'']; [rewrite app_nil_r in Hp; now subst a|].
+  apply (Hd a (y :: b'')); [now symmetry | discriminate].
+Qed.
+
+(* os.Remove on a physical path changes that path only *)
+Lemma os_remove_changes_only : forall s p, dirs_above s p -> changes_only (fun q => q = p) s (fst (os_remove s p)).
+Proof.
+  intros s p Hd. unfold os_remove. rewrite resolve_nofollow_phys by assumption.
+  assert (Hrm : changes_only (fun q => q = p) s (rm_key p s)) by (intros q Hq; now apply lookup_rm_key_other).
+  destruct p as [|c r].
+  - destruct (lookup s []) as [[cid| |t]|]; simpl; try apply changes_only_refl; try exact Hrm.
+    destruct (children s []); simpl; [exact Hrm | apply changes_only_refl].
+  - destruct (lookup s (c :: r)) as [[cid| |t]|] eqn:E; simpl; rewrite ?E; simpl; try apply changes_only_refl; try exact Hrm.
+    destruct (children s (c :: r)); simpl; [exact Hrm | apply changes_only_refl].
+Qed.
+
+Section RemovalFacts.
+Variable excl_name : name -> bool.
+Variable excl_path : path -> bool.
+
+Notation remove' := (remove excl_name excl_path true).
+Notation clean_dir_with' := (clean_dir_with excl_name).
+Notation fold_rm' := (fold_rm).
+
+(* the only entries a removal of p may touch: those at or below p that are not excluded *)
+Definition touchable (p q : path) : Prop := under p q /\ excl_path q = false.
+
+Lemma touchable_child : forall p n q, touchable (p ++ [n]) q -> touchable p q.
+Proof. intros p n q [Hu He]. split; [eapply under_app; eauto | exact He]. Qed.
+
+Lemma touchable_under : forall p q, touchable p q -> under p q.
+Proof. now intros p q [H _]. Qed.
+
+Definition rm_spec (rm : fsys -> path -> fsys * res) : Prop :=
+  forall s p, dirs_above s p -> changes_only (touchable p) s (fst (rm s p)).
+
+Lemma fold_rm_changes_only : forall cancelled rm p, rm_spec rm ->
+  forall ns s, dirs_above s p -> lookup s p = Some EDir -> changes_only (touchable p) s (fst (fold_rm' cancelled rm s p ns)).
+Proof.
+  intros cancelled rm p Hrm. induction ns as [|n r IH]; intros s Hd Hl; simpl; [apply changes_only_refl|].
+  destruct cancelled; [apply changes_only_refl|].
+  pose proof (Hrm s (p ++ [n]) (dirs_above_child s p n Hd Hl)) as H1.
+  destruct (rm s (p ++ [n])) as [s1 r1] eqn:E. simpl in H1.
+  assert (H1' : changes_only (touchable p) s s1) by (eapply changes_only_weaken; [apply touchable_child | exact H1]).
+  destruct r1; [|exact H1'].
+  eapply changes_only_trans; [exact H1'|]. apply IH.
+  - eapply dirs_above_preserved; [apply touchable_under | exact H1' | exact Hd].
+  - rewrite H1; [exact Hl|]. intros [Hu _]. revert Hu. apply strict_prefix_not_under. discriminate.
+Qed.
+
+Lemma ls_some_dir : forall s p ns, dirs_above s p -> not_link (lookup s p) -> ls excl_name s p = Some ns -> lookup s p = Some EDir.
+Proof.
+  intros s p ns Hd Hn H. unfold ls, is_dir in H. rewrite stat_phys in H by assumption.
+  destruct (lookup s p) as [[cid| |t]|]; try discriminate. reflexivity.
+Qed.
+
+Lemma clean_dir_with_changes_only : forall cancelled rm, rm_spec rm ->
+  forall s p, dirs_above s p -> not_link (lookup s p) -> changes_only (touchable p) s (fst (clean_dir_with' cancelled rm s p)).
+Proof.
+  intros cancelled rm Hrm s p Hd Hn. unfold clean_dir_with.
+  destruct cancelled; [apply changes_only_refl|].
+  destruct (negb (exists_ s p)); [apply changes_only_refl|].
+  destruct (is_empty s p); [apply changes_only_refl|].
+  destruct (ls excl_name s p) as [ns|] eqn:E; [|apply changes_only_refl].
+  apply fold_rm_changes_only; auto. eapply ls_some_dir; eauto.
+Qed.
+
+Lemma remove_changes_only : forall cancelled fuel, rm_spec (remove' cancelled fuel).
+Proof.
+  intros cancelled. induction fuel as [|f IH]; intros s p Hd; simpl; [apply changes_only_refl|].
+  rewrite lstat_phys by assumption.
+  assert (Hos : forall s1, dirs_above s1 p -> excl_path p = false -> changes_only (touchable p) s1 (fst (os_remove s1 p))).
+  { intros s1 Hd1 He. eapply changes_only_weaken; [|apply os_remove_changes_only; exact Hd1].
+    intros q ->. split; [apply under_refl | exact He]. }
+  destruct (is_link (lookup s p)) eqn:El.
+  - destruct cancelled; [apply changes_only_refl|].
+    destruct (excl_path p) eqn:Ee; [apply changes_only_refl | now apply Hos].
+  - assert (Hn : not_link (lookup s p)) by (intros t Ht; rewrite Ht in El; discriminate).
+    destruct (negb (exists_ s p)); [apply changes_only_refl|].
+    destruct (is_dir s p) as [isDir|]; [|apply changes_only_refl].
+    set (c := if isDir && negb (is_empty s p) then clean_dir_with' cancelled (remove' cancelled f) s p else (s, Ok)).
+    assert (Hc : changes_only (touchable p) s (fst c)).
+    { unfold c. destruct (isDir && negb (is_empty s p)); [|apply changes_only_refl].
+      now apply clean_dir_with_changes_only. }
+    destruct c as [s1 r1]. simpl in Hc.
+    destruct r1; [|exact Hc].
+    assert (Hd1 : dirs_above s1 p) by (eapply dirs_above_preserved; [apply touchable_under | exact Hc | exact Hd]).
+    destruct (isDir && negb (is_empty s1 p)); [exact Hc|].
+    destruct cancelled; [exact Hc|].
+    destruct (excl_path p) eqn:Ee; [exact Hc|].
+    eapply changes_only_trans; [exact Hc | now apply Hos].
+Qed.
+
+End RemovalFacts.
+
+(* ---------- garbage collection ---------- *)
+
+Lemma remove0_changes_only : forall cancelled fuel s p, dirs_above s p ->
+  changes_only (under p) s (fst (remove0 true cancelled fuel s p)).
+Proof.
+  intros c fuel s p Hd. eapply changes_only_weaken; [|apply (remove_changes_only (fun _ => false) (fun _ => false) c fuel s p Hd)].
+  intros q Hq. exact (touchable_under _ _ _ Hq).
+Qed.
+
+Lemma gc_file_changes_only : forall cancelled old fuel s p, dirs_above s p ->
+  changes_only (under p) s (fst (gc_file true cancelled old fuel s p)).
+Proof.
+  intros c old fuel s p Hd. unfold gc_file. destruct c; [apply changes_only_refl|].
+  destruct (resolve link_fuel s true p) as [q|]; [|apply changes_only_refl].
+  destruct (old q); [now apply remove0_changes_only | apply changes_only_refl].
+Qed.
+
+Definition gc_spec (g : fsys -> path -> fsys * res) : Prop :=
+  forall s p, dirs_above s p -> changes_only (under p) s (fst (g s p)).
+
+Lemma gc_fold_changes_only : forall g p, gc_spec g ->
+  forall ns s, dirs_above s p -> lookup s p = Some EDir ->
+  changes_only (under p) s (fold_left (fun acc n => fst (g acc (p ++ [n]))) ns s).
+Proof.
+  intros g p Hg. induction ns as [|n r IH]; intros s Hd Hl; simpl; [apply changes_only_refl|].
+  pose proof (Hg s (p ++ [n]) (dirs_above_child s p n Hd Hl)) as H1.
+  set (s1 := fst (g s (p ++ [n]))) in *.
+  assert (H1' : changes_only (under p) s s1) by (eapply changes_only_weaken; [intros q Hq; eapply under_app; exact Hq | exact H1]).
+  eapply changes_only_trans; [exact H1'|]. apply IH.
+  - eapply dirs_above_preserved; [intros q Hq; exact Hq | exact H1' | exact Hd].
+  - rewrite H1; [exact Hl|]. apply strict_prefix_not_under. discriminate.
+Qed.
+
+Lemma gc_changes_only : forall cancelled old fuel s p dp, dirs_above s p -> (dp = false -> not_link (lookup s p)) ->
+  changes_only (under p) s (fst (gc true cancelled old fuel s p dp)).
+Proof.
+  intros c old. induction fuel as [|f IH]; intros s p dp Hd Hroot; simpl; [apply changes_only_refl|].
+  destruct c; [apply changes_only_refl|].
+  destruct (negb (exists_ s p)); [apply changes_only_refl|].
+  rewrite lstat_phys by assumption.
+  destruct (dp && is_link (lookup s p)) eqn:El; [now apply gc_file_changes_only|].
+  assert (Hn : not_link (lookup s p)).
+  { destruct dp; [|now apply Hroot]. simpl in El. intros t Ht. rewrite Ht in El. discriminate. }
+  destruct (is_dir s p) as [[|]|] eqn:Ed; try now apply gc_file_changes_only.
+  destruct (ls (fun _ => false) s p) as [ns|] eqn:E; [|apply changes_only_refl].
+  assert (Hl : lookup s p = Some EDir) by (eapply ls_some_dir; eauto).
+  assert (Hf : changes_only (under p) s (fold_left (fun acc n => fst (gc true false old f acc (p ++ [n]) true)) ns s)).
+  { apply (gc_fold_changes_only (fun a q => gc true false old f a q true)); auto.
+    intros s0 p0 Hd0. apply IH; [exact Hd0 | discriminate]. }
+  set (s1 := fold_left _ ns s) in *.
+  destruct (is_empty s1 p && dp); [|exact Hf].
+  eapply changes_only_trans; [exact Hf|]. apply remove0_changes_only.
+  eapply dirs_above_preserved; [intros q Hq; exact Hq | exact Hf | exact Hd].
+Qed.
+
+(* ---------- listing, well-formed trees ---------- *)
+
+Lemma child_of_spec : forall p k n, child_of p k = Some n <-> k = p ++ [n].
+Proof.
+  induction p as [|a p IH]; intros k n; simpl.
+  - destruct k as [|x [|y r]]; split; intro H; try discriminate; try (inversion H; reflexivity).
+  - destruct k as [|b k]; [split; discriminate|].
+    destruct (name_eqb a b) eqn:E.
+    + apply name_eqb_eq in E. subst b. rewrite IH. split; [intros ->; reflexivity | intro H; now inversion H].
+    + split; [discriminate|]. intro H. inversion H. subst. assert (name_eqb a a = true) by now apply name_eqb_eq. congruence.
+Qed.
+
+Lemma lookup_in : forall s k, lookup s k <> None <-> exists e, In (k, e) s.
+Proof.
+  induction s as [|[k0 e0] r IH]; intro k; simpl.
+  - split; [congruence | intros [e []]].
+  - destruct (path_eqb k0 k) eqn:E.
+    + apply path_eqb_eq in E. subst. split; [intros _; exists e0; now left | discriminate].
+    + rewrite IH. split; intros [e H]; exists e; [now right|].
+      destruct H as [H|H]; [inversion H; subst; rewrite path_eqb_refl in E; discriminate | exact H].
+Qed.
+
+Lemma children_spec : forall s p n, In n (children s p) <-> lookup s (p ++ [n]) <> None.
+Proof.
+  intros s p n. unfold children. rewrite in_flat_map, lookup_in. split.
+  - intros [[k e] [Hin Hn]]. simpl in Hn. destruct (child_of p k) as [m|] eqn:E; [|destruct Hn].
+    destruct Hn as [->|[]]. apply child_of_spec in E. subst k. now exists e.
+  - intros [e Hin]. exists (p ++ [n], e). split; [exact Hin|]. simpl.
+    assert (E : child_of p (p ++ [n]) = Some n) by now apply child_of_spec. rewrite E. now left.
+Qed.
+
+Lemma children_nil : forall s p, children s p = [] <-> forall n, lookup s (p ++ [n]) = None.
+Proof.
+  intros s p. split.
+  - intros H n. destruct (lookup s (p ++ [n])) eqn:E; [|reflexivity].
+    assert (In n (children s p)) by (apply children_spec; congruence). rewrite H in H0. destruct H0.
+  - intros H. destruct (children s p) as [|n r] eqn:E; [reflexivity|].
+    assert (Hin : In n (children s p)) by (rewrite E; now left). apply children_spec in Hin. now rewrite H in Hin.
+Qed.
+
+Lemma wf_prefix_dir : forall s, wf s -> forall r p, r <> [] -> lookup s (p ++ r) <> None -> lookup s p = Some EDir.
+Proof.
+  intros s Hwf. induction r as [|n r' IH] using rev_ind; intros p Hne H; [congruence|].
+  rewrite app_assoc in H. apply Hwf in H. destruct r' as [|x r'']; [now rewrite app_nil_r in H|].
+  apply IH; [discriminate | congruence].
+Qed.
+
+Lemma wf_nothing_below : forall s p r, wf s -> lookup s p <> Some EDir -> r <> [] -> lookup s (p ++ r) = None.
+Proof.
+  intros s p r Hwf Hp Hr. destruct (lookup s (p ++ r)) eqn:E; [|reflexivity].
+  exfalso. apply Hp. apply (wf_prefix_dir s Hwf r p Hr). congruence.
+Qed.
+
+Definition gone_below (s : fsys) (p : path) : Prop := forall q, under p q -> lookup s q = None.
+
+Lemma wf_missing_gone : forall s p, wf s -> lookup s p = None -> gone_below s p.
+Proof.
+  intros s p Hwf Hp q [r ->]. destruct r as [|x r']; [now rewrite app_nil_r|].
+  apply wf_nothing_below; [exact Hwf | congruence | discriminate].
+Qed.
+
+Lemma rm_key_gone : forall s p, wf s -> (lookup s p <> Some EDir \/ forall n, lookup s (p ++ [n]) = None) -> gone_below (rm_key p s) p.
+Proof.
+  intros s p Hwf H q [r ->]. rewrite lookup_rm_key. destruct (path_eqb (p ++ r) p) eqn:E; [reflexivity|].
+  destruct r as [|n r']; [rewrite app_nil_r, path_eqb_refl in E; discriminate|].
+  destruct H as [H|H].
+  - apply wf_nothing_below; [exact Hwf | exact H | discriminate].
+  - change (n :: r') with ([n] ++ r'). rewrite app_assoc.
+    destruct r' as [|y r'']; [rewrite app_nil_r; apply H|].
+    apply wf_nothing_below; [exact Hwf | rewrite H; discriminate | discriminate].
+Qed.
+
+Lemma rm_key_wf : forall s p, wf s -> (lookup s p <> Some EDir \/ forall n, lookup s (p ++ [n]) = None) -> wf (rm_key p s).
+Proof.
+  intros s p Hwf H a n Hl. rewrite lookup_rm_key in Hl.
+  destruct (path_eqb (a ++ [n]) p) eqn:E; [congruence|].
+  pose proof (Hwf a n Hl) as Ha.
+  rewrite lookup_rm_key_other; [exact Ha|]. intros ->.
+  destruct H as [H|H]; [congruence | now rewrite H in Hl].
+Qed.
+
+(* the outcomes of os.Remove on a physical path *)
+Lemma os_remove_cases : forall s p, dirs_above s p ->
+  os_remove s p = (s, Err ENotFound) \/ os_remove s p = (s, Err ENotEmpty) \/
+  (os_remove s p = (rm_key p s, Ok) /\ lookup s p <> None /\ (lookup s p <> Some EDir \/ forall n, lookup s (p ++ [n]) = None)).
+Proof.
+  intros s p Hd. unfold os_remove. rewrite resolve_nofollow_phys by assumption.
+  assert (G : forall q, q = p -> 
+     match lookup s q with
+      | Some EDir => match children s q with [] => (rm_key q s, Ok) | _ => (s, Err ENotEmpty) end
+      | Some _ => (rm_key q s, Ok)
+      | None => (s, Err ENotFound) end = (s, Err ENotFound) \/ 
+     match lookup s q with
+      | Some EDir => match children s q with [] => (rm_key q s, Ok) | _ => (s, Err ENotEmpty) end
+      | Some _ => (rm_key q s, Ok)
+      | None => (s, Err ENotFound) end = (s, Err ENotEmpty) \/ 
+     (match lookup s q with
+      | Some EDir => match children s q with [] => (rm_key q s, Ok) | _ => (s, Err ENotEmpty) end
+      | Some _ => (rm_key q s, Ok)
+      | None => (s, Err ENotFound) end = (rm_key p s, Ok) /\ lookup s p <> None /\ (lookup s p <> Some EDir \/ forall n, lookup s (p ++ [n]) = None))).
+  { intros q ->. destruct (lookup s p) as [[cid| |t]|] eqn:E.
+    - right; right. repeat split; [discriminate | left; discriminate].
+    - destruct (children s p) eqn:Ec; [|right; left; reflexivity].
+      right; right. repeat split; [discriminate | right; now apply children_nil].
+    - right; right. repeat split; [discriminate | left; discriminate].
+    - left; reflexivity. }
+  destruct p as [|c r]; [apply (G []); reflexivity|].
+  destruct (lookup s (c :: r)) eqn:E; [|left; reflexivity].
+  specialize (G (c :: r) eq_refl). rewrite E in G. rewrite E. exact G.
+Qed.
+
+Lemma os_remove_wf : forall s p, wf s -> dirs_above s p -> wf (fst (os_remove s p)).
+Proof.
+  intros s p Hwf Hd. destruct (os_remove_cases s p Hd) as [->|[->|[-> [_ H]]]]; simpl; auto. now apply rm_key_wf.
+Qed.
+
+Lemma os_remove_complete : forall s p, wf s -> dirs_above s p -> snd (os_remove s p) = Ok -> gone_below (fst (os_remove s p)) p.
+Proof.
+  intros s p Hwf Hd Hok. destruct (os_remove_cases s p Hd) as [E|[E|[E [_ H]]]]; rewrite E in *; simpl in *; try discriminate.
+  now apply rm_key_gone.
+Qed.
+
+(* ---------- well-formedness is preserved ---------- *)
+
+Section WfFacts.
+Variable excl_name : name -> bool.
+Variable excl_path : path -> bool.
+
+Definition wf_spec (rm : fsys -> path -> fsys * res) : Prop :=
+  forall s p, wf s -> dirs_above s p -> wf (fst (rm s p)).
+
+(* one step of the loop keeps the directory being cleaned in place *)
+Lemma child_step : forall rm s p n, rm_spec excl_path rm -> dirs_above s p -> lookup s p = Some EDir ->
+  dirs_above (fst (rm s (p ++ [n]))) p /\ lookup (fst (rm s (p ++ [n]))) p = Some EDir /\
+  changes_only (touchable excl_path (p ++ [n])) s (fst (rm s (p ++ [n]))).
+Proof.
+  intros rm s p n Hrm Hd Hl.
+  pose proof (Hrm s (p ++ [n]) (dirs_above_child s p n Hd Hl)) as H1.
+  split; [|split; [|exact H1]].
+  - eapply dirs_above_preserved; [|exact H1|exact Hd]. intros q Hq. eapply under_app. eapply touchable_under. exact Hq.
+  - rewrite H1; [exact Hl|]. intros [Hu _]. revert Hu. apply strict_prefix_not_under. discriminate.
+Qed.
+
+Lemma fold_rm_wf : forall c rm p, rm_spec excl_path rm -> wf_spec rm ->
+  forall ns s, wf s -> dirs_above s p -> lookup s p = Some EDir -> wf (fst (fold_rm c rm s p ns)).
+Proof.
+  intros c rm p Hrm Hw. induction ns as [|n r IH]; intros s Hwf Hd Hl; simpl; [exact Hwf|].
+  destruct c; [exact Hwf|].
+  destruct (child_step rm s p n Hrm Hd Hl) as [Hd1 [Hl1 _]].
+  pose proof (Hw s (p ++ [n]) Hwf (dirs_above_child s p n Hd Hl)) as Hwf1.
+  destruct (rm s (p ++ [n])) as [s1 r1]. simpl in *. destruct r1; [now apply IH | exact Hwf1].
+Qed.
+
+Lemma clean_dir_with_wf : forall c rm, rm_spec excl_path rm -> wf_spec rm ->
+  forall s p, wf s -> dirs_above s p -> not_link (lookup s p) -> wf (fst (clean_dir_with excl_name c rm s p)).
+Proof.
+  intros c rm Hrm Hw s p Hwf Hd Hn. unfold clean_dir_with.
+  destruct c; [exact Hwf|].
+  destruct (negb (exists_ s p)); [exact Hwf|].
+  destruct (is_empty s p); [exact Hwf|].
+  destruct (ls excl_name s p) as [ns|] eqn:E; [|exact Hwf].
+  apply fold_rm_wf; auto. eapply ls_some_dir; eauto.
+Qed.
+
+Lemma remove_wf : forall c fuel, wf_spec (remove excl_name excl_path true c fuel).
+Proof.
+  intros c. induction fuel as [|f IH]; intros s p Hwf Hd; simpl; [exact Hwf|].
+  rewrite lstat_phys by assumption.
+  destruct (is_link (lookup s p)) eqn:El.
+  - destruct c; [exact Hwf|]. destruct (excl_path p); [exact Hwf | now apply os_remove_wf].
+  - assert (Hn : not_link (lookup s p)) by (intros t Ht; rewrite Ht in El; discriminate).
+    destruct (negb (exists_ s p)); [exact Hwf|].
+    destruct (is_dir s p) as [isDir|]; [|exact Hwf].
+    set (x := if isDir && negb (is_empty s p) then clean_dir_with excl_name c (remove excl_name excl_path true c f) s p else (s, Ok)).
+    assert (Hx : wf (fst x) /\ changes_only (touchable excl_path p) s (fst x)).
+    { unfold x. destruct (isDir && negb (is_empty s p)); [|split; [exact Hwf | apply changes_only_refl]].
+      split; [apply clean_dir_with_wf; auto; apply remove_changes_only | apply clean_dir_with_changes_only; auto; apply remove_changes_only]. }
+    destruct x as [s1 r1]. simpl in Hx. destruct Hx as [Hwf1 Hc].
+    destruct r1; [|exact Hwf1].
+    assert (Hd1 : dirs_above s1 p) by (eapply dirs_above_preserved; [apply touchable_under | exact Hc | exact Hd]).
+    destruct (isDir && negb (is_empty s1 p)); [exact Hwf1|].
+    destruct c; [exact Hwf1|].
+    destruct (excl_path p); [exact Hwf1 | now apply os_remove_wf].
+Qed.
+
+End WfFacts.
+
+(* ---------- success without exclusion patterns: everything is gone ---------- *)
+
+Lemma name_eq_dec : forall a b : name, {a = b} + {a <> b}.
+Proof. apply list_eq_dec. apply Z.eq_dec. Qed.
+
+Lemma sibling_not_under : forall p n m, m <> n -> ~ under (p ++ [n]) (p ++ [m]).
+Proof.
+  intros p n m Hne [x H]. rewrite <- app_assoc in H. apply app_inv_head in H. simpl in H. inversion H. congruence.
+Qed.
+
+Lemma is_empty_dir_phys : forall s p, dirs_above s p -> lookup s p = Some EDir ->
+  is_empty s p = match children s p with [] => true | _ => false end.
+Proof.
+  intros s p Hd Hl. unfold is_empty. rewrite stat_phys; [|exact Hd|intros t; congruence].
+  rewrite Hl, readdir_phys by assumption. now destruct (children s p).
+Qed.
+
+Section Complete.
+Variable excl_name : name -> bool.
+Variable excl_path : path -> bool.
+Hypothesis Hen : forall n, excl_name n = false.
+Hypothesis Hep : forall q, excl_path q = false.
+
+Definition complete_spec (rm : fsys -> path -> fsys * res) : Prop :=
+  forall s p, wf s -> dirs_above s p -> snd (rm s p) = Ok -> gone_below (fst (rm s p)) p.
+
+Lemma filter_none : forall ns : list name, filter (fun n => negb (excl_name n)) ns = ns.
+Proof. induction ns as [|n r IH]; simpl; [reflexivity|]. now rewrite Hen, IH. Qed.
+
+Lemma fold_rm_complete : forall c rm p, rm_spec excl_path rm -> wf_spec rm -> complete_spec rm ->
+  forall ns s, wf s -> dirs_above s p -> lookup s p = Some EDir ->
+  (forall n, lookup s (p ++ [n]) <> None -> In n ns) ->
+  snd (fold_rm c rm s p ns) = Ok ->
+  forall n, lookup (fst (fold_rm c rm s p ns)) (p ++ [n]) = None.
+Proof.
+  intros c rm p Hrm Hw Hc. induction ns as [|n r IH]; intros s Hwf Hd Hl Hall Hok m; simpl in *.
+  - destruct (lookup s (p ++ [m])) eqn:E; [|reflexivity]. exfalso. apply (Hall m). congruence.
+  - destruct c; [discriminate|].
+    destruct (child_step excl_path rm s p n Hrm Hd Hl) as [Hd1 [Hl1 Hch]].
+    pose proof (Hw s (p ++ [n]) Hwf (dirs_above_child s p n Hd Hl)) as Hwf1.
+    pose proof (Hc s (p ++ [n]) Hwf (dirs_above_child s p n Hd Hl)) as Hgone.
+    destruct (rm s (p ++ [n])) as [s1 r1]. simpl in *.
+    destruct r1; [|discriminate].
+    apply IH; auto.
+    intros k Hk. destruct (name_eq_dec k n) as [->|Hne].
+    + exfalso. apply Hk. apply Hgone; [reflexivity | apply under_refl].
+    + rewrite Hch in Hk.
+      * destruct (Hall k Hk) as [->|Hin]; [congruence | exact Hin].
+      * intros [Hu _]. revert Hu. now apply sibling_not_under.
+Qed.
+
+(* a successful CleanDir of a real directory leaves it in place and empty *)
+Lemma clean_dir_with_complete : forall c rm, rm_spec excl_path rm -> wf_spec rm -> complete_spec rm ->
+  forall s p, wf s -> dirs_above s p -> lookup s p = Some EDir ->
+  snd (clean_dir_with excl_name c rm s p) = Ok ->
+  children (fst (clean_dir_with excl_name c rm s p)) p = [].
+Proof.
+  intros c rm Hrm Hw Hc s p Hwf Hd Hl Hok. unfold clean_dir_with in *.
+  destruct c; [discriminate|].
+  unfold exists_ in *. rewrite stat_phys in * by (auto; intros t; congruence). rewrite Hl in *. simpl in *.
+  rewrite is_empty_dir_phys in * by assumption.
+  destruct (children s p) as [|n0 r0] eqn:Ech; [exact Ech|].
+  unfold ls, is_dir in *. rewrite stat_phys in * by (auto; intros t; congruence). rewrite Hl in *.
+  rewrite readdir_phys in * by assumption. rewrite filter_none in *. rewrite Ech in *.
+  apply children_nil. rewrite <- Ech in *. apply fold_rm_complete; auto.
+  intros k Hk. now apply children_spec.
+Qed.
+
+Lemma fold_rm_keeps_root : forall c rm p, rm_spec excl_path rm ->
+  forall ns s, dirs_above s p -> lookup s p = Some EDir -> lookup (fst (fold_rm c rm s p ns)) p = Some EDir.
+Proof.
+  intros c rm p Hrm. induction ns as [|n r IH]; intros s Hd Hl; simpl; [exact Hl|].
+  destruct c; [exact Hl|].
+  destruct (child_step excl_path rm s p n Hrm Hd Hl) as [Hd1 [Hl1 _]].
+  destruct (rm s (p ++ [n])) as [s1 r1]. simpl in *. destruct r1; [now apply IH | exact Hl1].
+Qed.
+
+Lemma clean_dir_with_keeps_root : forall c rm, rm_spec excl_path rm ->
+  forall s p, dirs_above s p -> lookup s p = Some EDir -> lookup (fst (clean_dir_with excl_name c rm s p)) p = Some EDir.
+Proof.
+  intros c rm Hrm s p Hd Hl. unfold clean_dir_with.
+  destruct c; [exact Hl|].
+  destruct (negb (exists_ s p)); [exact Hl|].
+  destruct (is_empty s p); [exact Hl|].
+  destruct (ls excl_name s p) as [ns|]; [|exact Hl].
+  now apply fold_rm_keeps_root.
+Qed.
+
+Lemma remove_complete_l : forall c fuel, complete_spec (remove excl_name excl_path true c fuel).
+Proof.
+  intros c. induction fuel as [|f IH]; intros s p Hwf Hd; [discriminate|].
+  remember (remove excl_name excl_path true c (S f) s p) as R eqn:HR. simpl in HR.
+  rewrite lstat_phys in HR by assumption.
+  destruct (is_link (lookup s p)) eqn:El.
+  - simpl in HR. destruct c; [subst R; discriminate|]. rewrite Hep in HR. subst R. now apply os_remove_complete.
+  - assert (Hn : not_link (lookup s p)) by (intros t Ht; rewrite Ht in El; discriminate).
+    simpl in HR. unfold exists_, is_dir in HR. rewrite stat_phys in HR by assumption.
+    destruct (lookup s p) as [[cid| |t]|] eqn:Elk.
+    + (* a regular file *)
+      simpl in HR. destruct c; [subst R; discriminate|]. rewrite Hep in HR. subst R. now apply os_remove_complete.
+    + (* a real directory *)
+      simpl in HR.
+      pose proof (remove_changes_only excl_name excl_path c f) as Hrm.
+      pose proof (remove_wf excl_name excl_path c f) as Hw.
+      assert (Hn' : not_link (lookup s p)) by (rewrite Elk; exact Hn).
+      destruct (negb (is_empty s p)) eqn:Eemp.
+      * pose proof (clean_dir_with_complete c _ Hrm Hw IH s p Hwf Hd Elk) as Hcc.
+        pose proof (clean_dir_with_wf excl_name excl_path c _ Hrm Hw s p Hwf Hd Hn') as Hwf1.
+        pose proof (clean_dir_with_changes_only excl_name excl_path c _ Hrm s p Hd Hn') as Hch.
+        pose proof (clean_dir_with_keeps_root c _ Hrm s p Hd Elk) as Hl1.
+        destruct (clean_dir_with excl_name c (remove excl_name excl_path true c f) s p) as [s1 r1]. simpl in *.
+        destruct r1; [|subst R; discriminate].
+        assert (Hd1 : dirs_above s1 p) by (eapply dirs_above_preserved; [apply touchable_under | exact Hch | exact Hd]).
+        rewrite (is_empty_dir_phys s1 p Hd1 Hl1), (Hcc eq_refl) in HR. simpl in HR.
+        destruct c; [subst R; discriminate|]. rewrite Hep in HR. subst R. now apply os_remove_complete.
+      * rewrite Eemp in HR. simpl in HR.
+        destruct c; [subst R; discriminate|]. rewrite Hep in HR. subst R. now apply os_remove_complete.
+    + exfalso. now apply (Hn t).
+    + simpl in HR. subst R. simpl. intros _. now apply wf_missing_gone.
+Qed.
+
+End Complete.
+
+(* ---------- statements used by Props.v ---------- *)
+
+Lemma remove_confined_l : forall en ep c fuel s p, dirs_above s p ->
+  forall q, ~ under p q -> lookup (fst (remove en ep true c fuel s p)) q = lookup s q.
+Proof.
+  intros en ep c fuel s p Hd q Hq. apply (remove_changes_only en ep c fuel s p Hd). intros [Hu _]. now apply Hq.
+Qed.
+
+Lemma clean_dir_confined_l : forall en ep c fuel s p, dirs_above s p -> not_link (lookup s p) ->
+  forall q, ~ under p q -> lookup (fst (clean_dir en ep true c fuel s p)) q = lookup s q.
+Proof.
+  intros en ep c fuel s p Hd Hn q Hq. unfold clean_dir.
+  apply (clean_dir_with_changes_only en ep c _ (remove_changes_only en ep c fuel) s p Hd Hn). intros [Hu _]. now apply Hq.
+Qed.
+
+Lemma gc_confined_l : forall c old fuel s root, dirs_above s root -> not_link (lookup s root) ->
+  forall q, ~ under root q -> lookup (fst (garbage_collect true c old fuel s root)) q = lookup s q.
+Proof.
+  intros c old fuel s root Hd Hn q Hq. unfold garbage_collect. now apply (gc_changes_only c old fuel s root false Hd (fun _ => Hn)).
+Qed.
+
+Definition survives_with_ancestors (s s' : fsys) (q : path) : Prop :=
+  lookup s' q = lookup s q /\ forall a b, q = a ++ b -> b <> [] -> lookup s' a = Some EDir.
+
+Lemma keeps_excluded_gen : forall ep (s s' : fsys) p q, wf s' -> changes_only (touchable ep p) s s' ->
+  ep q = true -> lookup s q <> None -> survives_with_ancestors s s' q.
+Proof.
+  intros ep s s' p q Hwf Hc He Hex.
+  assert (Hq : lookup s' q = lookup s q) by (apply Hc; intros [_ H]; congruence).
+  split; [exact Hq|]. intros a b -> Hb. apply (wf_prefix_dir s' Hwf b a Hb). congruence.
+Qed.
+
+Lemma remove_keeps_excluded_l : forall en ep c fuel s p, wf s -> dirs_above s p ->
+  forall q, ep q = true -> lookup s q <> None -> survives_with_ancestors s (fst (remove en ep true c fuel s p)) q.
+Proof.
+  intros en ep c fuel s p Hwf Hd q He Hex. eapply keeps_excluded_gen; eauto.
+  - exact (remove_wf en ep c fuel s p Hwf Hd).
+  - exact (remove_changes_only en ep c fuel s p Hd).
+Qed.
+
+Lemma clean_dir_keeps_excluded_l : forall en ep c fuel s p, wf s -> dirs_above s p -> not_link (lookup s p) ->
+  forall q, ep q = true -> lookup s q <> None -> survives_with_ancestors s (fst (clean_dir en ep true c fuel s p)) q.
+Proof.
+  intros en ep c fuel s p Hwf Hd Hn q He Hex. unfold clean_dir. eapply keeps_excluded_gen; eauto.
+  - exact (clean_dir_with_wf en ep c _ (remove_changes_only en ep c fuel) (remove_wf en ep c fuel) s p Hwf Hd Hn).
+  - exact (clean_dir_with_changes_only en ep c _ (remove_changes_only en ep c fuel) s p Hd Hn).
+Qed.
+
+Lemma clean_dir_complete_l : forall en ep c fuel s p,
+  (forall n, en n = false) -> (forall q, ep q = false) ->
+  wf s -> dirs_above s p -> lookup s p = Some EDir ->
+  snd (clean_dir en ep true c fuel s p) = Ok ->
+  lookup (fst (clean_dir en ep true c fuel s p)) p = Some EDir /\
+  forall q, under p q -> q <> p -> lookup (fst (clean_dir en ep true c fuel s p)) q = None.
+Proof.
+  intros en ep c fuel s p Hen Hep Hwf Hd Hl Hok. unfold clean_dir in *.
+  pose proof (remove_changes_only en ep c fuel) as Hrm.
+  pose proof (remove_wf en ep c fuel) as Hw.
+  pose proof (remove_complete_l en ep Hen Hep c fuel) as Hc.
+  assert (Hn : not_link (lookup s p)) by (intros t; congruence).
+  split; [exact (clean_dir_with_keeps_root en ep c _ Hrm s p Hd Hl)|].
+  pose proof (clean_dir_with_complete en ep Hen c _ Hrm Hw Hc s p Hwf Hd Hl Hok) as Hch.
+  pose proof (clean_dir_with_wf en ep c _ Hrm Hw s p Hwf Hd Hn) as Hwf1.
+  intros q [r ->] Hne. destruct r as [|n r']; [rewrite app_nil_r in Hne; congruence|].
+  change (n :: r') with ([n] ++ r'). rewrite app_assoc.
+  apply (wf_missing_gone _ (p ++ [n]) Hwf1); [|eexists; reflexivity].
+  now apply children_nil.
+Qed.
+
+(* the code before the fix: Stat-based tests follow the link tree/sub/lnk -> outside; the dangling link is "not there" *)
+Definition nm (z : Z) : name := [z].
+Definition witness : fsys :=
+  [ ([], EDir); ([nm 1], EDir); ([nm 1; nm 2], EFile 7);
+    ([nm 3], EDir); ([nm 3; nm 4], EDir); ([nm 3; nm 4; nm 5], ELink [nm 1]); ([nm 3; nm 6], ELink [nm 9]) ].
+Definition noex_n : name -> bool := fun _ => false.
+Definition noex_p : path -> bool := fun _ => false.
+
+Lemma witness_dirs_above : dirs_above witness [nm 3].
+Proof.
+  intros a b H Hb. destruct a as [|x a']; [reflexivity|].
+  exfalso. destruct a'; destruct b; simpl in H; try discriminate; congruence.
+Qed.
+
+Lemma without_lstat_outside_deleted :
+  snd (remove noex_n noex_p false false 10 witness [nm 3]) = Ok /\
+  lookup (fst (remove noex_n noex_p false false 10 witness [nm 3])) [nm 1; nm 2] = None /\
+  lookup witness [nm 1; nm 2] = Some (EFile 7) /\
+  lookup (fst (remove noex_n noex_p false false 10 witness [nm 3])) [nm 3] = Some EDir.
+Proof. vm_compute. repeat split; reflexivity. Qed.
+
+Lemma witness_not_under : ~ under [nm 3] [nm 1; nm 2].
+Proof. intros [r H]. simpl in H. inversion H. Qed.
